@@ -213,13 +213,30 @@ def _check_c09(prog, ground_kwargs):
     return out
 
 
-def check_c10(prog):
+def check_c10(payload):
+    """payload: a program, or (program, options).  Options: negq - every second query is asked on the negated atom
+    (query(\\+a)), so that labels on negative literals occur; force - an extra TrueConstraint on one CNF variable
+    (preferably the head of an annotated disjunction), as the MPE and MAP tasks add for evidence, so that circuits in
+    which a constrained variable occurs only negatively or not at all occur."""
+    import random
     from problog.program import PrologString
     from problog.formula import LogicFormula, LogicDAG
     from problog.cnf_formula import CNF
     from problog.ddnnf_formula import DDNNF
+    from problog.constraint import TrueConstraint
+    prog, opt = payload if isinstance(payload, tuple) else (payload, {})
     src = progs.render(prog)
-    out = dict(src=src, violations=[], nontrivial=False, skip=False)
+    if opt.get("negq"):
+        lines, k = [], 0
+        for line in src.splitlines():
+            if line.startswith("query(") and "_" not in line:
+                k += 1
+                if k % 2 == 1:
+                    line = "query(\\+" + line[len("query("):]
+            lines.append(line)
+        src = "\n".join(lines) + "\n"
+    out = dict(src=src + ("%% options: %s\n" % sorted(opt.items()) if opt else ""), violations=[], nontrivial=False,
+               skip=False)
     try:
         cnf = CNF.create_from(LogicDAG.create_from(LogicFormula.create_from(PrologString(src))))
     except Exception:      # noqa
@@ -229,6 +246,13 @@ def check_c10(prog):
     if nv > 14 or nv == 0:
         out["skip"] = True
         return out
+    if opt.get("force"):
+        rng = random.Random(len(src) * 31 + opt["force"])
+        cand = sorted(set(abs(l) for c in cnf.constraints() for l in c.get_nodes() if abs(l) <= nv)) or list(range(1, nv + 1))
+        v = rng.choice(cand)
+        lit = v if rng.random() < 0.3 else -v
+        cnf.add_constraint(TrueConstraint(lit))
+        out["src"] += "%% extra constraint on the CNF: variable %d is %s\n" % (v, "true" if lit > 0 else "false")
     try:
         nnf = DDNNF.create_from(cnf)
     except Exception as e:      # noqa
@@ -242,6 +266,10 @@ def check_c10(prog):
         out["skip"] = True
         return out
     root = max(nodes)
+    if nodes[root][1] == "atom":
+        # a circuit that is a single literal: the formula object does not record the sign of its root
+        out["skip"] = True
+        return out
     var_of = dict((i, n.identifier) for i, (n, t) in nodes.items() if t == "atom")
     vars_memo = {}
 
@@ -320,6 +348,32 @@ def check_c10(prog):
         lit_n = n2.identifier if k2 > 0 else -n2.identifier
         if t2 != "atom" or lit_c != lit_n:
             out["violations"].append(("labels", "%s: CNF literal %s, d-DNNF literal %s" % (nm, lit_c, lit_n)))
+    # constraints carried over: every constraint of the circuit, read through the variable each of its nodes stands for,
+    # is a constraint of the CNF (a node that is not an atom of the circuit is kept as it is: it then refers to a CNF
+    # variable that does not occur in the circuit)
+    def lit_var(l):
+        n_t = nodes.get(abs(l))
+        if n_t is not None and n_t[1] == "atom":
+            return n_t[0].identifier if l > 0 else -n_t[0].identifier
+        return ("not-an-atom-of-the-circuit", l)
+    absent = set(range(1, nv + 1)) - set(mentioned)
+    cons_c = sorted(sorted(sorted(map(int, cl)) for cl in c.as_clauses()) for c in cnf.constraints())
+    cons_n = []
+    for c in nnf.constraints():
+        cls_ = []
+        for cl in c.as_clauses():
+            lits = []
+            for l in cl:
+                lv = lit_var(int(l))
+                if isinstance(lv, tuple):
+                    # allowed only for a variable that is absent from the circuit and keeps its CNF index
+                    lv = int(l) if abs(int(l)) in absent and abs(int(l)) not in nodes else lv
+                lits.append(lv)
+            cls_.append(sorted(lits, key=str))
+        cons_n.append(sorted(cls_, key=str))
+    if sorted(cons_n, key=str) != sorted([sorted([sorted(cl, key=str) for cl in c], key=str) for c in cons_c], key=str):
+        out["violations"].append(("constraints", "constraints of the circuit %s differ from those of the CNF %s (in CNF "
+                                  "variables)" % (sorted(cons_n, key=str), cons_c)))
     wc = cnf.get_weights()
     for i, (n, t) in nodes.items():
         if t == "atom" and n.identifier in wc and wc[n.identifier] != n.probability:
@@ -329,7 +383,7 @@ def check_c10(prog):
 
 
 def run(pid, tier, seed):
-    n = 2000 if tier == "thorough" else 250
+    n = 8000 if tier == "thorough" else 1200
     ps = progs.programs(seed * 15485863 + int(pid[1:]), n, max_choices=8, evidence=True)
     if pid == "C09":
         # cycle breaking is what this property is about: as many programs again from the interlocking-cycles profile
@@ -349,8 +403,13 @@ def run(pid, tier, seed):
         col = Collector("C10:ddnnf-validation",
                         "%d seeded programs; each CNF (<= 14 variables) compiled with the bundled dsharp; node-by-node "
                         "decomposability, smoothness; determinism and model equivalence by exhaustive enumeration; labels "
-                        "and weights carried over; distinct = program texts; non-trivial = more than one model" % n)
+                        "and weights carried over; distinct = program texts; non-trivial = more than one model. A third of the "
+                        "programs with every second query negated (labels on negative literals), a third with one extra "
+                        "TrueConstraint on a CNF variable (as MPE/MAP add for evidence), facts with probability 0.0/1.0 "
+                        "included (variables that are absent from the circuit); constraints compared in CNF variables" % n)
         fn = "bounded.c09.check_c10"
+        ps = progs.programs(seed * 15485863 + int(pid[1:]), n, max_choices=8, evidence=True, extreme=True)
+        ps = [(p, [{}, dict(negq=True), dict(force=1 + i)][i % 3]) for i, p in enumerate(ps)]
     for r in pmap(fn, ps):
         if r.get("skip"):
             continue
